@@ -34,24 +34,42 @@ META = dict(
           "axis-length tuples over {1,2,3} for 1..5 axes + random axes with "
           "duplicates/unsorted values: columns == Cartesian product as "
           "multiset, documented lat-major order for 2 axes. GeoNetwork: "
-          "weights == cos / cos^2 of own latitude (2^-20), AWC / link "
-          "distance measures == defining float64 sums over A, cos lat and "
-          "the library's own D (rtol 2e-5). non-trivial = distinct "
+          "weights == cos / cos^2 of own latitude (2^-20; surface and "
+          "irrigation, via constructor and set_node_weight_type), in/out/"
+          "total AWC, (in/out)average / max / total link distance (also "
+          "geometry corrected), (in/out)connectivity weighted distance, "
+          "neighbour AWC and the link distance histogram == defining "
+          "float64 sums over A, the library's cos lat and its own D (rtol "
+          "2e-5); measures documented as ignoring direction must equal "
+          "their value on the undirected version; random (un)directed "
+          "adjacency with densities 0..1 on 2..60 nodes; grids whose "
+          "sum(cos lat) < 0.01 N are skipped for the normalised measures. "
+          "non-trivial = distinct "
           "coordinate set with >= 2 distinct positions (distance sets), "
           "distinct axes tuple with >= 2 axes of length >= 2 (rect), "
           "distinct (grid, adjacency) with >= 1 link and non-constant "
           "latitude (network)."),
-    floors={"quick": {"angular_sets": 150, "euclid_sets": 100,
-                      "angular_pairs": 200000, "triangle_sets": 200,
-                      "lookup_queries": 1500, "rect_grids": 250,
-                      "weights_checked": 80, "link_measures_checked": 1000,
-                      "hostile_pairs": 2000},
-            "thorough": {"angular_sets": 1500, "euclid_sets": 1000,
-                         "angular_pairs": 2000000, "triangle_sets": 2000,
-                         "lookup_queries": 15000, "rect_grids": 1000,
-                         "weights_checked": 800,
-                         "link_measures_checked": 10000,
-                         "hostile_pairs": 20000}},
+    floors={"quick": {"angular_sets": 400, "angular_pairs": 2000000,
+                      "hostile_pairs": 150000, "midrange_pairs": 1500000,
+                      "triangle_sets": 600, "lookup_queries": 5000,
+                      "euclid_sets": 300, "euclid_dim1": 50,
+                      "euclid_dim2": 50, "euclid_dim3": 50,
+                      "euclid_dim4": 50, "euclid_dim5": 50,
+                      "rect_grids": 600, "rect_geo_grids": 150,
+                      "weights_checked": 400,
+                      "link_measures_checked": 4000,
+                      "histograms_checked": 400},
+            "thorough": {"angular_sets": 6000, "angular_pairs": 40000000,
+                         "hostile_pairs": 3000000,
+                         "midrange_pairs": 30000000,
+                         "triangle_sets": 9000, "lookup_queries": 75000,
+                         "euclid_sets": 4000, "euclid_dim1": 500,
+                         "euclid_dim2": 500, "euclid_dim3": 500,
+                         "euclid_dim4": 500, "euclid_dim5": 500,
+                         "rect_grids": 1500, "rect_geo_grids": 700,
+                         "weights_checked": 6000,
+                         "link_measures_checked": 55000,
+                         "histograms_checked": 5000}},
     exhaustive_subspaces={
         "quick": ["rect grids: all axis-length tuples over {1,2,3}, 1..5 axes"
                   " (363)"],
@@ -68,6 +86,11 @@ META = dict(
         "Euclidean coordinates have |x| <= 1e4 and differences that are 0 or "
         ">= 1e-9 (no float32 under/overflow of squares)"],
     technique="differential test against closed-form float64 geometry",
+    level_text=("every pair / triple / query of the generated coordinate "
+                "sets met the stated error bounds, metric axioms and "
+                "defining sums; no claim beyond the sampled sets"),
+    level_note=("trusted: numpy float64 trigonometry, the atan2 great-circle "
+                "form (cross-checked against the chord form at start-up)"),
 )
 
 STYLES = ["generic", "pole", "antimeridian", "coincident", "antipodal",
@@ -930,9 +953,9 @@ def run(ctx):
         n = len(lat)
         if n < 2:
             continue
-        directed = bool(k % 2)
+        directed = bool(r.random() < 0.5)
         A = gen_adjacency(r, n, directed)
-        wtype = "surface" if (k // 2) % 2 else "irrigation"
+        wtype = "surface" if r.random() < 0.5 else "irrigation"
         with ctx.guard(120):
             check_network(ctx, GeoGrid, GeoNetwork, lat, lon, A, directed,
                           wtype, cid)
